@@ -132,6 +132,7 @@ func (t *HtmlScanner) readText() (tok *Token, err error) {
 		nameBuf  bytes.Buffer           // 闭合标签名 用于和 closeTag 匹配
 	)
 	for {
+		before := t.pos // 当前字符之前的位置
 		if err := t.NextRune(); err != nil {
 			if errors.Is(err, io.EOF) {
 				return t.addToken(&Token{
@@ -154,6 +155,7 @@ func (t *HtmlScanner) readText() (tok *Token, err error) {
 				tagBuf.Reset()
 				nameBuf.Reset()
 				closing = true
+				end = before // 结束标签(如果是)从这个 < 之前开始
 			}
 			if !closing {
 				// 记录结束标签前一个位置
